@@ -9,8 +9,9 @@ namespace Ogorek
     (Go strings are byte strings; UTF-8 validity is a predicate, not a type.) -/
 abbrev Bytes := List UInt8
 
-/-- ASCII bytes of a Lean string literal (used for literals such as "latin1"). -/
-def sb (s : String) : Bytes := s.toUTF8.toList
+/-- Bytes of an ASCII string literal (used for literals such as "latin1"); defined through
+    `String.toList` so that it evaluates in the kernel. -/
+def sb (s : String) : Bytes := s.toList.map fun c => UInt8.ofNat c.toNat
 
 def hexDigit (n : Nat) : Char :=
   if n < 10 then Char.ofNat (48 + n) else Char.ofNat (87 + n)
